@@ -501,8 +501,8 @@ class MailboxSet(MailboxSetInterface[MailboxData]):
     async def add_mailbox(self, name: str) -> ObjectId:
         try:
             self._layout.add_folder(name, self.delimiter)
-        except FileExistsError as exc:
-            raise KeyError(name) from exc
+        except (FileExistsError, FileNotFoundError) as exc:
+            raise ValueError(name) from exc
         path = self._layout.get_path(name, self.delimiter)
         async with UidList.with_init(path) as uidl:
             global_uid = uidl.global_uid
@@ -522,4 +522,11 @@ class MailboxSet(MailboxSetInterface[MailboxData]):
         if before == 'INBOX':
             raise NotSupportedError()  # TODO
         else:
-            self._layout.rename_folder(before, after, self.delimiter)
+            try:
+                self._layout.get_folder(before, self.delimiter)
+            except FileNotFoundError as exc:
+                raise KeyError(before) from exc
+            try:
+                self._layout.rename_folder(before, after, self.delimiter)
+            except (FileExistsError, FileNotFoundError) as exc:
+                raise ValueError(after) from exc
